@@ -41,6 +41,8 @@ Export == (DoExport /\ NonEmpty) => CSVWrite("%1$s", <<ToJson(Case)>>, IOEnv.FV_
 FactorsDef4 == <<"f", "g", "h", "x">>
 FactorsDef5 == <<"f", "g", "h", "x", "z">>
 FactorsCat4 == <<"f", "g", "h", "k">>
+FactorsCat6 == <<"f", "g", "h", "k", "m", "n">>     \* six categorical factors (two disjoint three-way interactions)
+FactorsNum3 == <<"f", "x", "z", "w">>               \* one factor and three numeric variables
 NoExtra == {}
 SwapExtra == { <<"z", "x">>, <<"g", "f">>, <<"x", "f">> }
 =============================================================================
